@@ -1,6 +1,6 @@
 /-
 Kind-trees and the anonymous-box rewriters of weasyprint/formatting_structure/build.py:
-`process_whitespace` (tree part), `process_text_transform` (capitalize only),
+`process_whitespace` (tree part), `process_text_transform`,
 `anonymous_table_boxes` / `table_boxes_children` / `wrap_improper` / `wrap_table`,
 `flex_boxes` / `flex_children`, `grid_boxes` / `grid_children`, `inline_in_block`,
 `block_in_inline` / `_inner_block_in_inline`, `create_anonymous_boxes`.
@@ -31,7 +31,8 @@ structure Style where
   abs : Bool := false        -- style['position'] in ('absolute', 'fixed')
   run : Bool := false        -- style['position'][0] == 'running()'
   ws : WS := .normal         -- style['white_space']            (inherited)
-  cap : Bool := false        -- style['text_transform'] == 'capitalize' (inherited; other values: 'none')
+  tt : TT := .none           -- style['text_transform']          (inherited)
+  hyph : Bool := false       -- style['hyphens'] == 'none'        (inherited)
   disp : GDisp := .other     -- ('table-header-group',) / ('table-footer-group',) / anything else
   capBottom : Bool := false  -- style['caption_side'] == 'bottom' (inherited)
   anon : Bool := false       -- the style object is an `AnonymousStyle`
@@ -111,7 +112,7 @@ def initInst (cls : BoxKind) (e : El) : Inst :=
   if cls == .TableCellBox then { colspan := cellColspan e, rowspan := cellRowspan e } else {}
 
 /-- `AnonymousStyle(parent_style)`: inherited entries from the parent, the others initial. -/
-def anonStyle (p : Style) : Style := { ws := p.ws, cap := p.cap, capBottom := p.capBottom, anon := true }
+def anonStyle (p : Style) : Style := { ws := p.ws, tt := p.tt, hyph := p.hyph, capBottom := p.capBottom, anon := true }
 
 /-- `cls.anonymous_from(parent, children)`: the element (hence its attributes) is the parent's. -/
 def anonFrom (cls : BoxKind) (parent : KBox) (kids : List KBox) : KBox :=
@@ -149,11 +150,12 @@ def pwKids (boxInFlow : Bool) : List KBox → Bool → List KBox × Bool
 end
 
 mutual
-/-- `process_text_transform(box)` for `text-transform` ∈ {none, capitalize}, `hyphens` ≠ none. -/
+/-- `process_text_transform(box)`. -/
 def ptt : KBox → KBox
   | .mk k st el inst text kids cols =>
     if Gen.isSub k .TextBox then
-      .mk k st el inst (if st.cap then capitalize text else text) kids cols
+      let t1 := applyTT st.tt text
+      .mk k st el inst (if st.hyph then dropSoftHyphens t1 else t1) kids cols
     else if !st.run then .mk k st el inst text (pttKids kids) cols
     else .mk k st el inst text kids cols
 def pttKids : List KBox → List KBox
@@ -311,30 +313,35 @@ def isWhitespace (b : KBox) : Bool := b.isA .TextBox && allReSpace b.text
 /-- `TableColumnGroupBox.span` -/
 def groupSpan (b : KBox) : Nat := if !b.kids.isEmpty then b.kids.length else elSpan b.el
 
+/-- Rule 1.3, last child: `internal, text = children[-2:]; if … : children.pop()`. -/
+def rule13Last (children : List KBox) : List KBox :=
+  match children.reverse with
+  | text :: internal :: _ =>
+    if Gen.internalTableOrCaption internal.kind && isWhitespace text then children.dropLast else children
+  | _ => children
+
+/-- Rule 1.3, first child: `text, internal = children[:2]; if … : children.pop(0)`. -/
+def rule13First (children : List KBox) : List KBox :=
+  match children with
+  | text :: internal :: rest =>
+    if Gen.internalTableOrCaption internal.kind && isWhitespace text then internal :: rest else children
+  | _ => children
+
 /-- Rule 1.3 of `table_boxes_children`. -/
 def rule13 (children : List KBox) : List KBox :=
-  if children.length >= 2 then
-    let c1 :=
-      match children.reverse with
-      | text :: internal :: _ =>
-        if Gen.internalTableOrCaption internal.kind && isWhitespace text then children.dropLast
-        else children
-      | _ => children
-    match c1 with
-    | text :: internal :: rest =>
-      if Gen.internalTableOrCaption internal.kind && isWhitespace text then internal :: rest else c1
-    | _ => c1
-  else children
+  if children.length >= 2 then rule13First (rule13Last children) else children
+
+/-- The test of rule 1.4 for one child between `prev` and the head of `next`. -/
+def rule14Drop (prev : Option KBox) (c : KBox) (next : List KBox) : Bool :=
+  (match prev with | some p => Gen.internalTableOrCaption p.kind | none => false) &&
+  (match next with | nx :: _ => Gen.internalTableOrCaption nx.kind | [] => false) &&
+  isWhitespace c
 
 /-- Rule 1.4: drop white-space text between two internal table boxes. -/
 def rule14 : Option KBox → List KBox → List KBox
   | _, [] => []
   | prev, c :: cs =>
-    let drop :=
-      (match prev with | some p => Gen.internalTableOrCaption p.kind | none => false) &&
-      (match cs with | nx :: _ => Gen.internalTableOrCaption nx.kind | [] => false) &&
-      isWhitespace c
-    if drop then rule14 (some c) cs else c :: rule14 (some c) cs
+    if rule14Drop prev c cs then rule14 (some c) cs else c :: rule14 (some c) cs
 
 /-- Sort the children of a table as `wrap_table` does (`by_type[type(child)]`). -/
 def sortTableKids : List KBox → Except BErr (List KBox × List KBox × List KBox)
@@ -535,7 +542,10 @@ def atb : KBox → Except BErr KBox
     else
       match atbKids kids with
       | .error e => .error e
-      | .ok children => tbc (tableFuel children.length) (.mk k st el inst text kids cols) children
+      | .ok children =>
+        -- rule 1.2 may create `span` anonymous columns: they count for the fuel
+        tbc (tableFuel (children.length + groupSpan (.mk k st el inst text kids cols)))
+          (.mk k st el inst text kids cols) children
 def atbKids : List KBox → Except BErr (List KBox)
   | [] => .ok []
   | c :: cs =>
